@@ -186,7 +186,8 @@ def gen(rng, tier):
         text = rng.choice(C16.MALFORMED + [f"{rng.randint(0, 3)}{rng.choice(C16.OFFSETS)}{rng.choice(C16.SUFFIXES)}"])
         if rng.random() < 0.5:
             text = mutate(rng, text)
-        base = [rng.choice(C16.BASE_TOKENS) for _ in range(rng.randint(0, 3))]
+        # base tokens that str.isdigit() / `\\d` call digits and int() may or may not read (superscripts, circled, other scripts)
+        base = [rng.choice(C16.BASE_TOKENS + ["²", "¹²", "①", "٣", "1٣", "+³", "1²"]) for _ in range(rng.randint(0, 3))]
         yield {"kind": "rel", "mode": True, "rel": text, "base": parts_typed(base)}
     # (4) patches: well-formed operations with wild paths (model-comparable) ...
     for i in range(n // 3):
